@@ -1,7 +1,54 @@
-(** C05 — pinned statements.  Only [Theorem .. exact ..]. *)
-From Rumqtt Require Import Codec.Wire Codec.V4 Codec.WireProofs.
+(** C05 — pinned statements (MQTT 3.1.1 part).  Only [Theorem .. exact ..]. *)
+From Rumqtt Require Import Codec.Wire Codec.V4 Codec.WireProofs Codec.FramingProofs Codec.V4TotalProofs Codec.V4Proofs.
 
-Theorem c05_len_len_boundaries :
-  len_len 0 = 1 /\ len_len 127 = 1 /\ len_len 128 = 2 /\ len_len 16383 = 2 /\ len_len 16384 = 3 /\
-  len_len 2097151 = 3 /\ len_len 2097152 = 4 /\ len_len 268435455 = 4.
-Proof. exact len_len_boundaries. Qed.
+Theorem c05_read_total : forall fl bs max t, read fl bs max <> RPanic t.
+Proof. exact read_total. Qed.
+
+Theorem c05_read_frame_packet : forall fl bs max p rest, read fl bs max = Packet p rest ->
+  exists h frame, parse_fixed_header bs = Ok h /\ bs = frame ++ rest /\
+                  len frame = frame_length h /\ remaining_len h <= max /\ 2 <= len frame.
+Proof. exact read_frame_packet. Qed.
+
+Theorem c05_read_frame_malformed : forall fl bs max e rest, read fl bs max = Malformed e rest ->
+  (rest = bs /\ (e = MalformedRemainingLength \/ e = PayloadSizeLimitExceeded)) \/
+  exists h frame, parse_fixed_header bs = Ok h /\ bs = frame ++ rest /\
+                  len frame = frame_length h /\ remaining_len h <= max.
+Proof. exact read_frame_malformed. Qed.
+
+Theorem c05_read_frame_over_max : forall fl bs max h, parse_fixed_header bs = Ok h -> max < remaining_len h ->
+  read fl bs max = Malformed PayloadSizeLimitExceeded bs.
+Proof. exact read_frame_over_max. Qed.
+
+Theorem c05_read_frame_need_more : forall fl bs max k, read fl bs max = NeedMore k ->
+  (parse_fixed_header bs = Err (InsufficientBytes k) /\ 1 <= k /\ len bs <= 4) \/
+  exists h, parse_fixed_header bs = Ok h /\ remaining_len h <= max /\ len bs < frame_length h /\
+            1 <= k /\ k <= frame_length h - len bs.
+Proof. exact read_frame_need_more. Qed.
+
+Theorem c05_header_prefix_stable : forall s h more, parse_fixed_header s = Ok h ->
+  parse_fixed_header (s ++ more) = Ok h.
+Proof. exact pfh_ok_prefix. Qed.
+
+Theorem c05_header_bounds : forall s h, parse_fixed_header s = Ok h ->
+  2 <= fixed_header_len h <= 5 /\ fixed_header_len h <= len s.
+Proof. exact pfh_ok_bounds. Qed.
+
+Theorem c05_prefix_stable_packet : forall fl bs max p rest more,
+  read fl bs max = Packet p rest -> read fl (bs ++ more) max = Packet p (rest ++ more).
+Proof. exact prefix_stable_packet. Qed.
+
+Theorem c05_prefix_stable_malformed : forall fl bs max e rest more,
+  read fl bs max = Malformed e rest -> read fl (bs ++ more) max = Malformed e (rest ++ more).
+Proof. exact prefix_stable_malformed. Qed.
+
+Theorem c05_chunking_independent : forall fl max chunks,
+  run_stream4 fl max chunks = run_stream4 fl max [concat chunks].
+Proof. exact chunking_independent4. Qed.
+
+Theorem c05_stream_no_panic : forall fl max chunks t, ~ In (EvPanic t) (fst (run_stream4 fl max chunks)).
+Proof. exact stream_no_panic. Qed.
+
+Theorem c05_decodable_example :
+  exists bs, write Client 100 ex_connect5 = Ok (bs, 14) /\ read Client bs 100 = Packet ex_connect5 []
+             /\ read Broker bs 100 = Malformed InvalidProtocolLevel [].
+Proof. exact asym_connect_level5. Qed.
